@@ -63,7 +63,7 @@ inline std::vector<Pair> inverse_pairs(const geodtab::Ell& E, bool T) {
   // (c) short lines: 8 compass offsets x separations from 5 bases
   const double R = E.a;
   for (Pt b : {Pt{0, 0}, Pt{30, 0}, Pt{-45.5, 100}, Pt{90 - 1e-7, 0}, Pt{-89.9, 179.9999}})
-    for (int k = 0; k < 8; ++k) for (double s : {0.0, 1e-9, 1e-6, 1e-3, 1.0, 1e3}) {
+    for (int k = 0; k < 8; ++k) for (double s : {0.0, 1e-9, 3e-8, 1e-7, 1e-6, 1e-3, 1.0, 1e3}) {
       double th = k * M_PI / 4, c = std::cos(b.lat * M_PI / 180);
       double dlat = s * std::cos(th) / R * 180 / M_PI, dlon = s * std::sin(th) / (R * (c > 1e-12 ? c : 1e-12)) * 180 / M_PI;
       double la2 = b.lat + dlat; if (la2 > 90) la2 = 90; if (la2 < -90) la2 = -90;
